@@ -99,31 +99,48 @@ _lift_case("join.PP.2d.shape22", 2, [("P", True), ("P", True)], lambda g, a, b: 
 _lift_case("meet.LL.2d.shape1", 2, [("L", True), ("L", True)], lambda g, a, b: g.meet(a, b), _same_obj, shape=(1,), tier="thorough", requires=_req_indep(2), functions=JM)
 
 
-def lift_coplanar_lines(ctx, which):
-    """the vectorised Blinn branch (fancy indexing with np.indices): collections of coplanar line pairs"""
+def lift_coplanar_lines(ctx, which, mix="cc"):
+    """the vectorised Blinn branch (fancy indexing with np.indices): collections of coplanar line pairs,
+    mix: cc = two collections, cs = collection and single line, sc = single line and collection"""
     from contracts.c01 import dependent, _line_pp
 
     geometer, gs, gc, gt = _g()
     A, B, C = ctx.arr("a", 2, 4), ctx.arr("b", 2, 4), ctx.arr("c", 2, 4)
+    if mix != "cc":
+        # all pairs share the point a0; the single line is a0 b0
+        A = np.stack([A[0], A[0]])
+        Bs = np.stack([B[0], B[0]])
+    else:
+        Bs = B
     for k in range(2):
-        ctx.assume(ctx.neg(dependent(ctx, [A[k], B[k], C[k]])))
-    L = np.stack([np.array(geo.line3_from_points(tolist(A[k]), tolist(B[k])), dtype=object if ctx.symbolic else None) for k in range(2)])
-    M = np.stack([np.array(geo.line3_from_points(tolist(A[k]), tolist(C[k])), dtype=object if ctx.symbolic else None) for k in range(2)])
-    LC, MC = geometer.LineCollection(L), geometer.LineCollection(M)
+        ctx.assume(ctx.neg(dependent(ctx, [A[k], Bs[k], C[k]])))
+    mk = lambda P, Q: np.array(geo.line3_from_points(tolist(P), tolist(Q)), dtype=object if ctx.symbolic else None)
+    MC = geometer.LineCollection(np.stack([mk(A[k], C[k]) for k in range(2)]))
+    if mix == "cc":
+        LC = geometer.LineCollection(np.stack([mk(A[k], B[k]) for k in range(2)]))
+        args = (LC, MC)
+    else:
+        single = geometer.Line(mk(A[0], B[0]))
+        args = (MC, single) if mix == "cs" else (single, MC)
     if which == "meet":
         with ctx.stubs():
-            X = geometer.meet(LC, MC)
+            X = geometer.meet(*args)
         ctx.ensure("meet:kind", type(X) is geometer.PointCollection and tuple(X.shape) == (2, 4))
         for k in range(2):
             ctx.ensure("meet:elementwise-common-point", ctx.proj_eq(X.array[k], A[k]))
     else:
         with ctx.stubs():
-            E = geometer.join(LC, MC)
+            E = geometer.join(*args)
         ctx.ensure("join:kind", type(E) is geometer.PlaneCollection and tuple(E.shape) == (2, 4))
         for k in range(2):
-            ctx.ensure("join:elementwise-plane", ctx.proj_eq(E.array[k], geo.plane_from_points(tolist(A[k]), tolist(B[k]), tolist(C[k]))))
+            ctx.ensure("join:elementwise-plane", ctx.proj_eq(E.array[k], geo.plane_from_points(tolist(A[k]), tolist(Bs[k]), tolist(C[k]))))
 
 
+for _w in ("meet", "join"):
+    for _m in ("cs", "sc"):
+        case("C04", "lift.coplanar.lines.3d.%s.%s" % (_w, _m), names("a", 2, 4) + names("b", 2, 4) + names("c", 2, 4), mode="field", functions=JM, timeout=180,
+             max_paths=1200, explore_time=900, also=("C01",), share=True,
+             assumptions=["collection shape (2,) enumerated"])(lambda ctx, _w=_w, _m=_m: lift_coplanar_lines(ctx, _w, _m))
 for _w in ("meet", "join"):
     case("C04", "lift.coplanar.lines.3d.%s" % _w, names("a", 2, 4) + names("b", 2, 4) + names("c", 2, 4), mode="field", functions=JM, timeout=180, max_paths=1200,
          explore_time=900, assumptions=["collection shape (2,) enumerated"])(lambda ctx, _w=_w: lift_coplanar_lines(ctx, _w))
@@ -240,3 +257,30 @@ def lift_segment_contains(ctx):
         for k in range(2):
             single = gs.Segment(Sg[k]).contains(geometer.Point(P[k]))
             ctx.ensure("contains:elementwise", _same_bool(ctx, r[k], single))
+
+
+@case("C04", "lift.point.arithmetic", names("p", 2, 3) + names("q", 3) + ["s"], mode="real",
+      functions=["geometer.point.PointLikeTensor.__add__", "geometer.point.PointLikeTensor.__sub__", "geometer.point.PointLikeTensor.__mul__",
+                 "geometer.point.PointLikeTensor.__truediv__", "geometer.point.PointLikeTensor._normalize_array"], timeout=120, max_paths=600, explore_time=600,
+      assumptions=["collection shape (2,) enumerated"])
+def lift_point_arithmetic(ctx):
+    """affine arithmetic on a PointCollection whose elements have DIFFERENT homogeneous scales (also 1 and 0) equals the
+    arithmetic on the single points"""
+    geometer, gs, gc, gt = _g()
+    P, q, s = ctx.arr("p", 2, 3), ctx.vec("q", 3), ctx.sym("s")
+    ctx.assume(ctx.neg(ctx.zero(s)))
+    ctx.assume(ctx.neg(ctx.zero(q[2])))
+    for k in range(2):
+        ctx.assume(ctx.neg(ctx.all_zero(P[k])))
+    pc, Q = geometer.PointCollection(P), geometer.Point(q)
+    ops = [("+", lambda a: a + Q), ("-", lambda a: a - Q), ("*s", lambda a: a * s), ("/s", lambda a: a / s), ("q+", lambda a: Q + a)]
+    for name, f in ops:
+        R = f(pc)
+        ctx.ensure("%s:kind" % name, type(R) is geometer.PointCollection and tuple(R.shape) == (2, 3))
+        for k in range(2):
+            r = f(geometer.Point(P[k]))
+            ctx.ensure("%s:elementwise" % name, ctx.minors_zero(R.array[k], r.array))
+    na = pc.normalized_array
+    for k in range(2):
+        nk = geometer.Point(P[k]).normalized_array
+        ctx.ensure("normalized_array:elementwise", ctx.conj([ctx.zero(na[k][i] - nk[i]) for i in range(3)]))
